@@ -16,6 +16,32 @@ from ..shapes import Schema, codec_family, has_kind, is_fixed
 from ..values import Inst, instances, to_json
 
 STUBS = ["int", "float", "bytearray", "ord", "chr", "struct", "range", "max", "sorted"]
+WORK_BUDGET = 20000  # loop iterations per encode+decode of one instance (WorkBound -> reported, not silently cut)
+
+
+def _red(res):
+    """The case already has counterexamples: no need to explore it further."""
+    return len(res["violations"]) + len(res["unconfirmed"]) + res.get("violations_unreplayed", 0) >= 3
+
+
+def decode_budget(nbytes):
+    """Loop iterations a decoder may spend on nbytes of input: bits read (8n) plus container/element loops."""
+    return 64 * (nbytes + 8)
+
+
+def _explore(eng, body, assume, cov):
+    """Lazy exploration with coverage recording and the work budget reset afterwards."""
+    it = eng.explore(body, assume)
+    while True:
+        try:
+            with cov:
+                item = next(it)
+        except StopIteration:
+            ForkingRange.work = None
+            return
+        yield item
+
+
 STUB_NOTE = [
     "builtins rebound in fcp.serde's namespace at harness time (no repository file edited): " + ", ".join(STUBS),
     "struct.pack/unpack('f'|'d'): native little-endian IEEE-754 image (x86-64 host); f32 values are not signalling NaNs",
@@ -89,17 +115,21 @@ def c01_case(args):
     cov = Coverage()
     nsat = 0
     for ii, inst in enumerate(instances(schema, tier)):
-        eng = Engine(timeout_ms=30000 if tier == "quick" else 300000)
+        eng = Engine(timeout_ms=30000 if tier == "quick" else 300000, max_paths=5000)
 
         def body():
+            ForkingRange.work = [WORK_BUDGET]
             enc = serde.encode(fcp, top, inst.value)
+            ForkingRange.work = [decode_budget(len(enc))]
             dec = serde.decode(fcp, top, enc)
             return enc, dec
 
         try:
-            with cov:
-                paths = list(eng.explore(body, inst.assume))
-            for pi, (kind, out, pc) in enumerate(paths):
+            paths = []
+            for pi, (kind, out, pc) in enumerate(_explore(eng, body, inst.assume, cov)):
+                paths.append((kind, out, pc))
+                if _red(res):
+                    break  # enough counterexamples for this schema; the case is red
                 ob_id = f"{feats['desc']}|inst{ii}|path{pi}|roundtrip"
                 mk = lambda m: _replay_payload("serde_roundtrip", schema, inst, m)
                 if kind == "exc":
@@ -135,6 +165,8 @@ def run_c01(tier: str) -> int:
     _refspec_gate(rep)
     for r in pmap(c01_case, [(s, tier) for s in fam]):
         rep.merge(r)
+        if rep.red_enough():
+            break
     _vacuity_gate(rep)
     return rep.finish()
 
@@ -182,6 +214,11 @@ def _as_symbytes(bvs):
     return [SymInt._mk(z3.ZeroExt(W - 8, b), 0, 255) for b in bvs]
 
 
+def _budget(fn, *a, budget=WORK_BUDGET):
+    ForkingRange.work = [budget]
+    return fn(*a)
+
+
 def c02_case(args):
     schema, tier = args
     serde = _setup()
@@ -195,11 +232,13 @@ def c02_case(args):
     for ii, inst in enumerate(instances(schema, tier)):
         canon = refspec.canon_bytes(schema, T, inst.value)
         # (a) encoder output == canonical bytes
-        eng = Engine(timeout_ms=30000 if tier == "quick" else 300000)
+        eng = Engine(timeout_ms=30000 if tier == "quick" else 300000, max_paths=5000)
         try:
-            with cov:
-                paths = list(eng.explore(lambda: serde.encode(fcp, top, inst.value), inst.assume))
-            for pi, (kind, out, pc) in enumerate(paths):
+            paths = []
+            for pi, (kind, out, pc) in enumerate(_explore(eng, lambda: _budget(serde.encode, fcp, top, inst.value), inst.assume, cov)):
+                paths.append(kind)
+                if _red(res):
+                    break
                 ob_id = f"{feats['desc']}|inst{ii}|path{pi}|encode==canon"
 
                 def mk(m, canon=canon):
@@ -224,12 +263,12 @@ def c02_case(args):
             res["inconclusive"].append(f"{feats['desc']} inst{ii} encode: engine limit: {e}")
         finish_engine(res, eng)
         # (b) decoder recovers v from the canonical bytes
-        eng = Engine(timeout_ms=30000 if tier == "quick" else 300000)
+        eng = Engine(timeout_ms=30000 if tier == "quick" else 300000, max_paths=5000)
         data = _as_symbytes(canon)
         try:
-            with cov:
-                paths = list(eng.explore(lambda: serde.decode(fcp, top, list(data)), inst.assume))
-            for pi, (kind, out, pc) in enumerate(paths):
+            for pi, (kind, out, pc) in enumerate(_explore(eng, lambda: _budget(serde.decode, fcp, top, list(data), budget=decode_budget(len(data))), inst.assume, cov)):
+                if _red(res):
+                    break
                 ob_id = f"{feats['desc']}|inst{ii}|path{pi}|decode(canon)==v"
 
                 def mk(m, canon=canon):
@@ -266,6 +305,8 @@ def run_c02(tier: str) -> int:
     _refspec_gate(rep)
     for r in pmap(c02_case, [(s, tier) for s in fam]):
         rep.merge(r)
+        if rep.red_enough():
+            break
     _vacuity_gate(rep)
     return rep.finish()
 
@@ -494,4 +535,6 @@ def run_c16(tier: str) -> int:
     _refspec_gate(rep)
     for r in pmap(c16_case, [(s, tier) for s in fam]):
         rep.merge(r)
+        if rep.red_enough():
+            break
     return rep.finish()
